@@ -300,6 +300,12 @@ func (m *seqMon) Step(w *world, ev event, outs []outMsg) (string, string) {
 				return "history-identifiers", fmt.Sprintf("after %s: %s carries 49=%s 56=%s, the last answered Logon established %s -> %s", ev.Name, typeName(mtype(o.Msg)), snd, tgt, m.ids[0], m.ids[1])
 			}
 		}
+		if !w.s.IsLogged() {
+			// the logon that established the identifiers is over (or suspended): whoever logs on next - or is refused
+			// next - is answered with the identifiers of its own Logon, and C05 says nothing about what a session
+			// that is not logged on mirrors in between
+			m.ids = [2]string{}
+		}
 	}
 	for _, o := range outs {
 		q := seqOf(o.Msg)
